@@ -10,6 +10,8 @@ expressions must each answer (a value or an error) within 10 seconds - no panic,
   D  time offsets: time(h, m, s, offset) with offsets up to and beyond a day and at the i32 limits, compared, rendered, read back
   E  extreme dates: arithmetic at the ends of the year range, huge number arguments of date / time / duration constructors
   F  the three-argument time() and date() with fractional and repeating-decimal components
+  G  nesting depth 50 and 200 of every nesting construct (parentheses, lists, contexts, negation, if, arithmetic, invocation, function
+     definition, for, some, filter, path, between, in, type names) and long literals, each in its own driver process: no stack overflow
 
 prints `feeltotal cases=N failures=M`; exit 0 / 2."""
 import os
@@ -98,6 +100,32 @@ def cases():
     return out
 
 
+def nested(depth):
+    """family G: every nesting construct nested `depth` times in itself (C05: nesting depth up to 200); each runs in its own
+    driver process on the main thread (8 MiB stack), because a stack overflow aborts the process and cannot be caught"""
+    d = depth
+    return [
+        '(' * d + '1' + ')' * d,
+        '[' * d + '1' + ']' * d,
+        '{a: ' * d + '1' + '}' * d,
+        '-' * 1 + '(-' * d + '1' + ')' * d,
+        'not(' * d + 'true' + ')' * d,
+        'if true then ' * d + '1' + ' else 0' * d,
+        '1' + ' + (1' * d + ')' * d,
+        'sum([' * d + '1' + '])' * d,
+        '(function(x) ' * d + 'x' + ')(1)' * d,
+        'for x in [1] return ' * d + 'x',
+        'some x in [1] satisfies ' * d + 'x = 1',
+        '[1]' + '[1]' * d,
+        '{a: 1}' + '.a' * 1 if d < 2 else '{a: ' * d + '1' + '}' * d + '.a' * d,
+        '1 between 0 and (' * d + '2' + ')' * d,
+        '1 in (' * d + '[0..2]' + ')' * d,
+        'x instance of ' + 'list<' * d + 'number' + '>' * d,
+        '"' + 'a' * (d * 100) + '"',
+        '[' + ', '.join(['1'] * (d * 20)) + ']',
+    ]
+
+
 def main():
     cs = cases()
     with tempfile.NamedTemporaryFile('w', suffix='.txt', delete=False, dir='/var/tmp', encoding='utf-8') as fh:
@@ -110,7 +138,32 @@ def main():
     if not rr.get('ok'):
         print('feeltotal could not run: %s' % rr.get('error'))
         return 2
-    print(rr['stdout'], end='')
+    out = rr['stdout']
+    import re as _re
+    m = _re.search(r'cases=(\d+) failures=(\d+)', out)
+    ncases, nfail = (int(m.group(1)), int(m.group(2))) if m else (0, 0)
+    extra = []
+    for depth in (50, 200):
+        for e in nested(depth):
+            ncases += 1
+            r2 = replaydrv.run('feel', [e], timeout=120)
+            rc = r2.get('returncode')
+            shown = e if len(e) < 120 else e[:60] + ' ... ' + e[-40:]
+            if not r2.get('ok'):
+                print('feeltotal could not run: %s' % r2.get('error'))
+                return 2
+            if (r2.get('stdout') or '') == 'TIMEOUT':
+                nfail += 1
+                extra.append('FAIL nesting depth %d: %s => no answer within 120 s' % (depth, shown))
+            elif rc != 0 or '=> PANIC' in (r2.get('stdout') or ''):
+                nfail += 1
+                extra.append('FAIL nesting depth %d: %s => %s' % (depth, shown, 'PANIC' if rc == 0 else 'process aborted (exit %s: stack overflow or crash)' % rc))
+    body = '\n'.join(l for l in out.splitlines() if not l.startswith('feeltotal cases='))
+    print('feeltotal cases=%d failures=%d' % (ncases, nfail))
+    if body.strip():
+        print(body)
+    for l in extra:
+        print(l)
     return 0
 
 
